@@ -21,8 +21,8 @@ From Coq Require Import List NArith Bool PeanoNat Sorted.
 Import ListNotations.
 From RX Require Import Generated.
 From RX.Model Require Import Base CharClass Stream Tokenizer Doc Builder Parse Api.
-From RX.Proofs Require Import LexerProofs NoPanicTokenizer RangeTokenizer RangeArena RangeInv RangeBuilder RangeParse RangeAttrLocal RangeAttrTok RangeAttrParse RangeShiftBase RangeShiftStream RangeShiftTokenizer RangeShiftBuilder RangeShiftParse RangeShiftFinal CstRangeDefs CstRangeMain.
-From RX.Spec Require Cst.
+From RX.Proofs Require Import LexerProofs NoPanicTokenizer RangeTokenizer RangeArena RangeInv RangeBuilder RangeParse RangeAttrLocal RangeAttrTok RangeAttrParse RangeShiftBase RangeShiftStream RangeShiftTokenizer RangeShiftBuilder RangeShiftParse RangeShiftFinal CstRangeDefs CstRangeMain CstRangeTDefs CstRangeTMain.
+From RX.Spec Require Cst CstText.
 Open Scope N_scope.
 
 (* ---- Proofs/RangeParse.v ---- *)
@@ -110,8 +110,36 @@ Theorem C13_parse_render_attr_ranges :
 Proof. exact parse_render_attr_ranges. Qed.
 Print Assumptions C13_parse_render_attr_ranges.
 
-(* ---- Proofs/RangeTokenizer.v ---- *)
+(* ---- Proofs/CstRangeTMain.v ---- *)
 Module G4.
+Module T := CstText.
+Theorem C13_parse_render_ranges_t :
+  forall (c : T.doc) (opt : options) d,
+  T.wf_doc c = true ->
+  N.of_nat (length (T.sem c)) < nodes_limit opt ->          (* room for all nodes + the Root *)
+  N.of_nat (length (T.render c)) <= u32_max ->               (* the input is at most u32::MAX bytes long *)
+  parse (T.render c) opt = Ok d ->
+  map nd_range (tl (d_nodes d)) = tspans c /\
+  (exists root, nth_N (d_nodes d) 0 = Some root /\ nd_range root = (0, N.of_nat (length (T.render c)))).
+Proof. exact parse_render_ranges_t. Qed.
+Print Assumptions C13_parse_render_ranges_t.
+
+Theorem C13_parse_render_attr_ranges_t :
+  forall (c : T.doc) (opt : options) d,
+  T.wf_doc c = true ->
+  N.of_nat (length (T.sem c)) < nodes_limit opt ->
+  N.of_nat (length (T.render c)) <= u32_max ->
+  tattrs_small c ->                                           (* below the saturation limits *)
+  parse (T.render c) opt = Ok d ->
+  map (fun a => (ad_range a, attr_range_qname a, attr_range_value a)) (d_attrs d) =
+  map (fun s => (tas_range s, tas_qname s, Ok (tas_value s))) (tattr_spans c).
+Proof. exact parse_render_attr_ranges_t. Qed.
+Print Assumptions C13_parse_render_attr_ranges_t.
+
+End G4.
+
+(* ---- Proofs/RangeTokenizer.v ---- *)
+Module G5.
 Local Notation token := Tokenizer.token.
 Theorem C13_tokenizer_token_ranges :
   forall text (C : Type) (ev : token -> C -> res C)
@@ -123,10 +151,10 @@ Theorem C13_tokenizer_token_ranges :
 Proof. exact tokenizer_token_ranges. Qed.
 Print Assumptions C13_tokenizer_token_ranges.
 
-End G4.
+End G5.
 
 (* ---- Proofs/LexerProofs.v ---- *)
-Module G5.
+Module G6.
 Local Notation token := Tokenizer.token.
 Theorem C13_parse_comment_post :
   forall (text : bytes), forall s acc s' acc', SInv text s ->
@@ -197,7 +225,7 @@ Theorem C13_parse_close_element_post :
 Proof. exact parse_close_element_post. Qed.
 Print Assumptions C13_parse_close_element_post.
 
-End G5.
+End G6.
 
 
 (* the slice shapes of C13, for every node of every parsed rendering of the Cst fragment *)
